@@ -1,23 +1,100 @@
 """C15 configuration (see lib/props.py for the format)."""
 
 _H = "c15_dns"
+# sendto/recvfrom of the library are routed through the harness: queries never leave the process in the probe legs, and in the
+# udp leg the model is shown the datagram the client really consumed before the client parses it
 _WRAP = ["-Wl,--wrap=sendto", "-Wl,--wrap=recvfrom"]
 
 PROP = dict(
     harnesses={_H: dict(sources=["harness/c15_dns.cpp"], ldflags=_WRAP)},
     legs=[
-        dict(name="parse", harness=_H, flavour="asan", mode="parse", args=["--watchdog", "240"], quick=800, thorough=60000,
+        # one case = 4 well-formed replies + 250-450 hostile datagrams derived from one of them, each delivered twice
+        dict(name="parse", harness=_H, flavour="asan", mode="parse", args=["--watchdog", "240"], quick=800, thorough=30000,
              case_timeout=600),
-        dict(name="memcheck", harness=_H, flavour="plain", mode="memcheck", args=["--watchdog", "600"], quick=16, thorough=800,
+        # same workload (thinned to ~120 datagrams per case) under valgrind memcheck; the harness re-executes itself under valgrind
+        dict(name="memcheck", harness=_H, flavour="plain", mode="memcheck", args=["--watchdog", "600"], quick=16, thorough=400,
              min_shard=2, case_timeout=900),
-        dict(name="history", harness=_H, flavour="asan", mode="history", args=["--watchdog", "240"], quick=30000, thorough=1500000),
-        dict(name="udp", harness=_H, flavour="asan", mode="udp", args=["--watchdog", "240"], quick=6000, thorough=300000),
+        dict(name="history", harness=_H, flavour="asan", mode="history", args=["--watchdog", "240"], quick=30000, thorough=1000000),
+        dict(name="udp", harness=_H, flavour="asan", mode="udp", args=["--watchdog", "240"], quick=6000, thorough=200000),
+        # one case = one client, 65537..68536 lookups (16-bit id wrap-around)
         dict(name="wrap", harness=_H, flavour="asan", mode="wrap", args=["--watchdog", "600"], quick=2, thorough=24, scalable=False),
     ],
-    rule="TBD",
-    assumptions=[],
-    technique="TBD",
-    level_text="TBD",
-    level_note="TBD",
-    required_counters={"all": []},
+    rule=("parse / memcheck: a seeded well-formed reply (question echoed; 0-8 answer records of type A, CNAME, AAAA, NS, MX, SOA, TXT and unknown types "
+          "with RDLENGTH 0-40; optional authority/additional records; owner and RDATA names written as literal labels, as the usual 0xC00C pointer, as "
+          "labels + backward pointer, pointer-to-pointer up to depth 8, labels up to 63 and names up to 255 bytes) must complete a fresh outstanding lookup "
+          "with kSuccess and exactly the A/CNAME records (address bytes, names, TTLs) an independent RFC 1035 reader (harness/c15_ref.hpp) extracts. From it are "
+          "derived: truncation at EVERY offset (a sample of offsets for replies over 160 bytes in half of the cases), answer/question/authority counts inflated "
+          "(+1,+2,+7,+255,+256, 0xFFFF), deflated and zeroed, the 27-byte one-A-record/count-0xFFFF datagram, compression pointers to themselves, 2-cycles, appended "
+          "3-6-cycles, forward and backward chains of 9..1500 pointers, pointers past the end / to the last byte / into the header / forwards, label lengths "
+          "0x3f/0x40/0x7f/0x80/0xbf/0xc0/0xff/'rest of packet', RDLENGTH lies on A, CNAME and other records, type flips to A/CNAME, 1-4 byte flips, trailing bytes, "
+          "QR clear, opcode, TC, every rcode 1-15 with full and short headers, ids off by one and random, random bytes of 0..64 bytes, CNAME names with NUL, '.', "
+          "high bytes. Every datagram is handed to the real DnsRequest::onUdpRecv (probe subclass) from an exactly sized heap block for a fresh lookup among 0-2 "
+          "other outstanding lookups, twice with differently pre-filled stacks; datagrams whose pointers form a cycle or a chain longer than 16 run in a forked "
+          "child. Whatever the callback reports must be an in-order sub-sequence of the records completely present in the datagram under some reading of "
+          "inconsistent RDLENGTHs; malformed datagrams may complete the lookup or be ignored. Non-trivial = the base reply carried at least one A/CNAME record; "
+          "distinct = hash of the base reply. "
+          "history / udp: 12-45 operations on one client with 1-3 servers under a virtual monotonic clock: lookup (30% with a callback that starts another lookup "
+          "or cancels another outstanding one), cancel (outstanding / finished / never issued id), reply to an outstanding lookup from a chosen server (well-formed "
+          "42%, name error, format error, server failures rcode 2/4/5/6/9/15, malformed, query echoed back, neighbouring id), duplicate of any earlier datagram "
+          "from the same or another server, stale reply for a finished lookup, datagram while nothing is outstanding, clock advance of 1..1000 ms, isRunning probes; "
+          "then time runs until everything outstanding has timed out, and late replies for timed-out, cancelled and completed lookups are delivered. udp: same "
+          "scripts, but the datagrams are sent by three fake servers bound to 127.0.0.{1,2,3}:53 in a private network namespace and reach the client through "
+          "UdpSocket and the loop's fd event. Non-trivial = at least one completed lookup, two replies, and one cancelled or timed-out lookup; distinct = hash of "
+          "the operation script. wrap: one client, 65537+ lookups (60% answered, 20% cancelled, 20% left to time out), the clock advancing every 40 lookups."),
+    assumptions=[
+        "'acceptable reply' is decided as: id of an outstanding lookup, QR set, opcode 0, rcode 0, TC and Z clear, one question, all four sections parse with the "
+        "counts given and end exactly at the end of the datagram, labels <= 63 bytes of [A-Za-z0-9_-], names <= 255 bytes, compression pointers strictly backwards "
+        "and at most 8 per name, A RDLENGTH 4, CNAME name filling its RDATA, class IN. Such a reply must complete the lookup with exactly its records. Any other "
+        "rcode-0 datagram may complete the lookup (with kSuccess or kFail) or be ignored; what it reports is still held to 'encoded in the datagram'",
+        "'encoded in the datagram' is read generously: an A record counts if its own RDATA holds at least 4 bytes inside the datagram, a CNAME if its name decodes "
+        "from the start of its RDATA; where RDLENGTH and the name length disagree both continuations are accepted; class is ignored; 'abc.' and 'abc' are one name",
+        "error replies: rcode 3 -> kDomainError, rcode 1 -> kFail (as the Status enum documents); any other rcode counts as a server failure: no callback while fewer "
+        "failures than servers have arrived, kAllDnsFail once every configured server has failed; while one server repeats its failure both waiting and completing "
+        "are accepted. Error replies with fewer than 12 bytes or a non-zero opcode may be ignored",
+        "timeout: a lookup that is not completed otherwise gets kTimeout not earlier than 4000 ms and not later than the first loop pass at or after 5000 ms of "
+        "virtual time after request() (five one-second ticks); the clock is advanced in steps of at most 1000 ms with two loop passes after each step",
+        "callbacks do not cancel their own lookup (DnsRequest erases the lookup after the callback returns); they do start lookups and cancel other lookups",
+        "cancel() returns true exactly for an outstanding lookup and isRunning() tells whether a lookup is outstanding (checked outside callbacks only)",
+        "fewer than 65536 lookups are started within any 5 s of virtual time (an id is not reused while its previous user is outstanding or still has a timeout token)",
+        "uninitialised reads are decided by valgrind memcheck on the plain build (about 120 datagrams per case); in the asan leg they are only visible through their "
+        "effect: an outcome that changes with the stale contents of the stack. Datagrams run in the isolated child are not run under memcheck",
+        "the udp leg needs CAP_SYS_ADMIN (unshare(CLONE_NEWNET)) to get a private loopback on which 127.0.0.{1,2,3}:53 can be bound without disturbing the host",
+    ],
+    technique=("runtime monitoring: the real DnsRequest parses generated and hostile datagrams under ASan+UBSan (exactly sized inputs), valgrind memcheck and in an isolated "
+               "child process; an independent strict RFC 1035 reader decides what a datagram encodes; a lock-step model of outstanding lookups decides exactly-once over "
+               "generated histories with a virtual clock, through a probe subclass and through real UDP sockets in a private network namespace"),
+    level_text=("Every datagram of every case is parsed by the real client while AddressSanitizer/UBSan (and memcheck, for a sub-sample) watch, its reported addresses and names "
+                "are compared with an independent reader of the same bytes, pointer cycles and long chains are run in a child process whose death is a datum, and every callback "
+                "of every generated history (replies from 1-3 servers in any order, duplicates, stale and late replies, cancels, callbacks that start and cancel lookups, clock "
+                "advances, id wrap-around) is matched against a model of the outstanding lookups. Truncation is enumerated at every offset of each base reply. Held on the "
+                "datagrams and histories explored, not a proof."),
+    level_note=("trusts harness/c15_ref.hpp (cross-checked against the generator's by-construction record lists on every case), gcc ASan/UBSan, valgrind memcheck, the "
+                "steady-clock hook, and the --wrap interposition of sendto/recvfrom"),
+    required_counters={
+        "quick": [
+            # serializer.cpp bounds checks underneath every field read
+            "dgclass_cut", "dgram_short-header", "dgram_datagram-without-id-and-flags", "dgram_answer-record-header-cut", "dgram_answer-rdata-cut",
+            "dgram_answer-owner-label-past-end", "dgram_question-cut", "dgclass_an-ffff", "dgclass_one-a-count-ffff", "dgclass_rdlength-a", "dgclass_rdlength-cname",
+            "dgclass_random", "dgclass_byte-flips",
+            # name decoder / compression pointers
+            "strict_replies_with_compression", "datagrams_with_pointer_cycle", "datagrams_with_pointer_chain_over_16", "datagrams_run_in_isolated_child",
+            "isolated_children_returned", "dgclass_ptr-self", "dgclass_ptr-2cycle", "dgclass_ptr-outside", "dgclass_ptr-chain-backward", "dgclass_ptr-chain-forward",
+            "dgram_answer-cname-pointer-out-of-range", "dgram_answer-owner-pointer-loop", "dgclass_odd-names",
+            # reported vs encoded, uninitialised reads
+            "strict_replies_delivered", "strict_replies_with_cname", "strict_replies_with_other_types", "strict_replies_without_a_or_cname",
+            "reported_records_checked_against_reference", "differential_pairs", "memcheck_datagrams",
+            # reply matched by id; server failures wait for the other servers
+            "dgram_no-outstanding-lookup-has-this-id", "dgram_query-not-reply", "dgram_name-error-reply", "dgram_format-error-reply",
+            "servfail_waits_for_other_servers", "dgram_server-failure-from-every-server", "dgram_server-failure-repeated-by-one-server",
+            # lookup erased on completion, timeout or cancel
+            "lookups_completed_exactly_once", "lookups_timed_out", "cancelled_lookups_never_called", "cancel_outstanding", "cancel_not_outstanding",
+            "late_reply_after_timeout", "late_reply_after_cancel", "late_reply_after_completion", "timeout_at_4000ms_edge", "timeout_at_5000ms_edge",
+            "reentrant_request_in_callback", "reentrant_cancel_other_in_callback", "isrunning_checks", "datagrams_sent_while_no_lookup_outstanding",
+            # udp_socket.cpp path
+            "udp_datagrams_sent_by_fake_servers", "udp_datagrams_consumed_by_client", "udp_queries_received_by_fake_servers",
+            # id wrap-around
+            "id_counter_wrapped",
+        ],
+    },
 )
+PROP["required_counters"]["thorough"] = PROP["required_counters"]["quick"]
